@@ -10,6 +10,7 @@ package main
 import (
 	"flag"
 	"fmt"
+	"html"
 	"math"
 	"os"
 	"os/exec"
@@ -228,6 +229,47 @@ func stripComments(t *parser.Thrift) {
 var litPieces = []string{
 	`\"`, `\'`, `\\`, `\\\"`, `\\\\"`, `"`, `'`, `""`, `'"`, `&`, `&amp;`, `&lt;`, `&#34;`, `<`, `>`, `#`, `#OUTQUOTES`,
 	`##34;`, `##`, `\n`, `\t`, `\`, ` `, `a`, `Z`, `0`, `é`, `世`, `//`, `/*`, `*/`, `{`, `)`, `,`, `;`, `=`, "\t", "\n",
+	// an ampersand in front of a legacy HTML entity name written without semicolon (query strings)
+	`?a=1&region=eu`, `&copy=1`, `&section=3`, `size&lt=100`, `&amp`, `&quot`, `&gt5`, `&notify`, `&para=`, `&times`, `&reg`,
+	`&deg;`, `&#38`, `&#x26;`, `&AMP;`, `x&y`,
+}
+
+// doubles whose shortest round-tripping spelling needs 17 significant digits, at small and huge
+// magnitudes, powers of two and their neighbours, the extremes of the format
+var hostileDoubles = []float64{
+	1.1920928955078125e-07, 1.1754943508222875e-38, 1.1102230246251565e-16, 2.2250738585072014e-308,
+	1.7976931348623157e308, 5e-324, 8.98846567431158e307, 2.2204460492503131e-16, 9.313225746154785e-10,
+	0.30000000000000004, 1.0000000000000002, 9007199254740993, 123456789012345680000, 1e23, 8.5e-320,
+	6.103515625e-05, 3.0517578125e-05, 1.4012984643248171e-45, 3.4028234663852886e38,
+}
+
+func hostileDouble(r *rng.R) float64 {
+	switch r.Intn(4) {
+	case 0:
+		return rng.Pick(r, hostileDoubles)
+	case 1: // a power of two, or a neighbour of one
+		v := math.Ldexp(1, r.Range(-1074, 1023))
+		switch r.Intn(3) {
+		case 0:
+			v = math.Nextafter(v, math.Inf(1))
+		case 1:
+			v = math.Nextafter(v, 0)
+		}
+		if v == 0 || math.IsInf(v, 0) {
+			v = 1.1920928955078125e-07
+		}
+		if r.Bool() {
+			v = -v
+		}
+		return v
+	default: // random finite bit pattern (random magnitude, almost always 17 digits)
+		for {
+			v := math.Float64frombits(r.U64())
+			if !math.IsNaN(v) && !math.IsInf(v, 0) && v != 0 {
+				return v
+			}
+		}
+	}
 }
 
 func oddBefore(s string, q byte) bool {
@@ -272,6 +314,11 @@ func mutate(r *rng.R, t *parser.Thrift, num, den int) int {
 		if c.TypedValue.Literal != nil && r.Chance(num, den) {
 			s := hostileText(r)
 			c.TypedValue.Literal = &s
+			n++
+		}
+		if c.TypedValue.Double != nil && r.Chance(num, den) {
+			v := hostileDouble(r)
+			c.TypedValue.Double = &v
 			n++
 		}
 	})
@@ -504,12 +551,21 @@ func (p *producer) measure(t *parser.Thrift) {
 		if strings.ContainsAny(s, "&<#") {
 			f("literal.amp_lt_hash", 1)
 		}
+		if html.UnescapeString(s) != s {
+			f("literal.html_unescape_would_change_it", 1)
+		}
 	}
 	eachConst(t, func(c *parser.ConstValue) {
 		tv := c.TypedValue
 		switch {
 		case tv.Double != nil:
 			f("double", 1)
+			if len(strconv.FormatFloat(*tv.Double, 'g', 16, 64)) < len(strconv.FormatFloat(*tv.Double, 'g', -1, 64)) {
+				f("double.needs_17_digits", 1)
+			}
+			if a := math.Abs(*tv.Double); a != 0 && (a < 1e-30 || a > 1e30) {
+				f("double.extreme_magnitude", 1)
+			}
 		case tv.Literal != nil:
 			lits(*tv.Literal)
 		case tv.List != nil && len(tv.List) > 0 && (tv.List[0].TypedValue.List != nil || tv.List[0].TypedValue.Map != nil):
